@@ -385,10 +385,55 @@ def judgeLine (line : String) : Option (String × Verdict) :=
       else some (key, judge fmt fmt (expectG query k ps) obs)
   | _ => none
 
+/-! ### fixed witnesses (W-lines): the code against the DEFINING formula of C19's statement.
+Not part of the correspondence (the model mirrors the code there); reported as
+`WITNESS <name> PASS|FAIL|INVALID :: <detail> :: <line>`. -/
+
+/-- the L1 (Manhattan) norm `Σ |x_i|` -/
+def manhattan (xs : List Int) : Int := (xs.map cabs).foldl (· + ·) 0
+
+def judgeWitness (line : String) : Option String :=
+  let toks := (line.splitOn " ").filter (· ≠ "")
+  match toks with
+  | "W" :: "l1" :: _st :: ns :: rest =>
+    let (lhs, rhs) := rest.span (· ≠ "=")
+    let obs := (rhs.drop 1).map parseTok
+    (match parseInts lhs, ns.toNat?, obs with
+     | some xs, some n, [.val r] =>
+       if xs.length != n then some s!"WITNESS l1_norm_not_manhattan INVALID :: arity :: {line}" else
+       let m := manhattan xs
+       let verdict := if r = i2r m then "PASS" else "FAIL"
+       some s!"WITNESS l1_norm_not_manhattan {verdict} :: manhattan norm = {m}, l1_norm() returned {r}, plain sum (model l1) = {l1 xs} :: {line}"
+     | _, _, _ => some s!"WITNESS l1_norm_not_manhattan INVALID :: malformed :: {line}")
+  | "W" :: "normal_nonconvex" :: st :: ks :: rest =>
+    let fmt := fmtOf st
+    let (lhs, rhs) := rest.span (· ≠ "=")
+    let vals (l : List String) := (l.map parseTok).filterMap (fun t => match t with | .val q => some q | _ => none)
+    let inp := vals lhs
+    let obs := vals (rhs.drop 1)
+    let ps := chunk3 inp
+    (match ks.toNat?, normalU? ps, normalU? (oppCycle ps) with
+     | some k, some u0, some u1 =>
+       let p0 := ps.headD []
+       let planar := ps.all (fun p => dot (sub p p0) u0 = 0)
+       if ps.length != k || inp.length != 3 * k || obs.length != 6 || sqrnorm u0 = 0 || sqrnorm u1 = 0 || !planar then
+         some s!"WITNESS normal_opposite_nonconvex INVALID :: witness must be a planar polygon with non-degenerate corners and six finite result tokens :: {line}"
+       else
+         let n0 := obs.take 3; let n1 := obs.drop 3
+         let opposite := (List.zipWith (fun x y => ratAbs (x + y)) n0 n1).all (· ≤ fmt.tolN * 4)
+         let verdict := if opposite then "PASS" else "FAIL"
+         let sameDir := decide (0 < dot u0 u1)
+         some s!"WITNESS normal_opposite_nonconvex {verdict} :: planar=true, normal(hf)={n0}, normal(opp hf)={n1}, un-normalised formulas {u0} / {u1}, formulas_point_the_same_way={sameDir} :: {line}"
+     | _, _, _ => some s!"WITNESS normal_opposite_nonconvex INVALID :: malformed :: {line}")
+  | _ => none
+
 partial def loop (h : IO.FS.Stream) (out : IO.FS.Stream) (s : Stats) : IO Stats := do
   let line ← h.getLine
   if line.isEmpty then return s
   let line := line.trimAsciiEnd.toString
+  match judgeWitness line with
+  | some w => out.putStrLn w; loop h out s
+  | none =>
   match judgeLine line with
   | none => loop h out s
   | some (key, v) =>
